@@ -71,8 +71,8 @@ def main(argv=None):
 
     inconclusive = list(failures)
     if not results:
-        for r in inconclusive:
-            print("INCONCLUSIVE property=%s %s" % (pid, r))
+        for r in inconclusive[:3]:
+            print("INCONCLUSIVE property=%s %s" % (pid, r[:700]))
         return 2
     try:
         summary = mod.finish(args.tier, args.seed, results)
@@ -130,8 +130,10 @@ def main(argv=None):
         return 1
 
     if inconclusive:
-        for r in inconclusive:
-            print("INCONCLUSIVE property=%s %s" % (pid, r))
+        for r in inconclusive[:4]:
+            print("INCONCLUSIVE property=%s %s" % (pid, r[:700]))
+        if len(inconclusive) > 4:
+            print("INCONCLUSIVE property=%s ... and %d more reasons" % (pid, len(inconclusive) - 4))
         return 2
 
     print("OK property=%s tier=%s seed=%d evaluations=%s distinct=%s wall=%.1fs" % (
